@@ -66,5 +66,20 @@ def format_item_rfc2822 (z : Zoned) : Format.W :=
   | .ok l =>
     Format.formatItemsR (some l.date) (some l.time) (some (Format.fixedOffsetName z.off, z.off)) ITEMS
 
+/-- `DateTime::<FixedOffset>::format_with_items(items)` written into a `String`, ANY item list (the single
+item of `format_item_rfc2822` is `format_with_items z ITEMS`, by `rfl`) -/
+def format_with_items (z : Zoned) (items : List Item) : Format.W :=
+  match Zoned.overflowing_naive_local z with
+  | .panic => .panic
+  | .ok l =>
+    Format.formatItemsR (some l.date) (some l.time) (some (Format.fixedOffsetName z.off, z.off)) items
+
+/-- `parse(&mut Parsed::new(), s, items)?; parsed.to_datetime()`: what `DateTime::parse_from_rfc2822` does,
+with ANY item list in place of `[RFC2822]` (`parse_from_rfc2822 s = parse_items_to_datetime s ITEMS`, by `rfl`) -/
+def parse_items_to_datetime (s : List Nat) (items : List Item) : Parsed.RP Zoned :=
+  match Parse.parse Parsed.new s items with
+  | .error e => .ok (.error e)
+  | .ok p => Parsed.to_datetime p
+
 end Rfc2822
 end Chrono.M
